@@ -1,6 +1,8 @@
 SPECIFICATION Spec
 CONSTANTS KA = {"sub"}
-          KB = {"f12"}
+          KB = {"none", "f12"}
           KC = {"frep"}
+          RK = {"dir", "hamt"}
+          SK = {"dir", "hamt"}
 INVARIANTS TypeOK DagWellFormed AllBlocksVerify OnlyFromDag DupsOnlyIfRequested RootIsTerminal Sufficient RawExact ModelMinimal
 CHECK_DEADLOCK FALSE
